@@ -94,6 +94,65 @@ def loadModel (detect : Int → Int → Int → Bool → Detected)
       if db2 then (if schema_2_18_0.ord ≤ s.ord then .loaded s else .database_inconsistency)
       else .loaded s
 
+/-! ### whole-function view: stored 64-bit numbers, Information lookup, directory layout -/
+
+/-- What `load_database` can throw (C13's alphabet). -/
+inductive LoadErr where
+  | database_not_found | unsupported_database | database_inconsistency
+  deriving DecidableEq, Repr, Inhabited
+
+def Detected.toExcept : Detected → Except LoadErr Schema
+  | .schema s => .ok s
+  | .unsupported => .error .unsupported_database
+
+/-- `static_cast<int>(int64_t)`: value modulo 2^32 into [-2^31, 2^31). -/
+def narrowI32 (v : Int) : Int := (v + 2147483648) % 4294967296 - 2147483648
+
+/-- Everything `load_database(directory)` looks at: which paths exist, and — of the `m.db` that
+gets opened — how many `Information` tables `sqlite_master` lists, the three stored version
+numbers (64-bit integers) and the 1.18.0 variant marker. -/
+structure World where
+  dirExists : Bool
+  legacy : Bool      -- <dir>/m.db
+  pdb : Bool         -- <dir>/p.db
+  db2 : Bool         -- <dir>/Database2/m.db
+  tableCount : Int
+  vMajor : Int
+  vMinor : Int
+  vPatch : Int
+  numeric : Bool
+  deriving Repr, DecidableEq
+
+def LoadOutcome.ofExcept : Except LoadErr Schema → LoadOutcome
+  | .ok s => .loaded s
+  | .error .database_not_found => .database_not_found
+  | .error .unsupported_database => .unsupported_database
+  | .error .database_inconsistency => .database_inconsistency
+
+/-- `to_string(engine_schema)` as the public header prints it. -/
+def Schema.versionString (s : Schema) : String :=
+  let v := s.version
+  s!"{v.1}.{v.2.1}.{v.2.2}" ++
+    (match s.marker with | some true => " (Desktop)" | some false => " (OS)" | none => "")
+
+/-- Spec of loading a directory, written from the property text:
+no directory / no database / both layouts → `database_not_found`; otherwise the schema is
+selected solely from the stored triple and the marker (`specDetect`), every other triple is
+`unsupported_database`.  Three refusals that the text does not spell out are part of the Spec
+and documented in design/C13.md: a legacy library without its `p.db`, an `m.db` without exactly
+one `Information` table, and a Database2 directory stamped with a 1.x version are all reported
+as `database_inconsistency` (no schema is *mis*identified: none is returned). -/
+def specLoad (w : World) : LoadOutcome :=
+  if !w.dirExists then .database_not_found
+  else if !w.legacy && !w.db2 then .database_not_found
+  else if w.legacy && w.db2 then .database_not_found
+  else if w.legacy && !w.pdb then .database_inconsistency
+  else if w.tableCount ≠ 1 then .database_inconsistency
+  else match specDetect w.vMajor w.vMinor w.vPatch w.numeric with
+    | .unsupported => .unsupported_database
+    | .schema s =>
+      if w.db2 && s.version.1 < 2 then .database_inconsistency else .loaded s
+
 /-- `create_or_load_database`: creates exactly when loading reports "not found". -/
 def createOrLoad (load : LoadOutcome) (requested : Schema) : Bool × LoadOutcome :=
   match load with
